@@ -50,8 +50,12 @@ Files(hp, ids) == [i \in 1..Len(ids) |-> hp[ids[i]]]
 FullOps == {"copy", "slice", "stack", "subset", "renamevar", "renamedim", "renamedims",
             "rmsingle", "insertdim", "reorder"}
 
+\* arguments as the operation sees them (fuzzy addressing of the string forms)
+ArgsOf(e, f) == CASE e.act = "apply" -> FzApply(f, e.args)
+                  [] e.act = "slice" -> FzSlice(f, e.args)
+                  [] OTHER -> e.args
 InDomain(e, hp) ==
-  LET f == hp[e.src] a == e.args IN
+  LET f == hp[e.src] a == ArgsOf(e, f) IN
   CASE e.act = "copy" -> Dom_copy(f, a)
     [] e.act = "slice" -> Dom_slice(f, a)
     [] e.act = "apply" -> Dom_apply(f, a)
@@ -69,7 +73,7 @@ InDomain(e, hp) ==
     [] OTHER -> FALSE
 
 Decidable(e, hp) ==
-  LET f == hp[e.src] a == e.args IN
+  LET f == hp[e.src] a == ArgsOf(e, f) IN
   CASE e.act = "apply" -> Dec_apply(f, a)
     [] e.act = "arith" -> Dec_arith(Files(hp, <<e.src>> \o e.others), a)
     [] e.act = "eval" -> Dec_eval(f, a)
@@ -77,7 +81,7 @@ Decidable(e, hp) ==
     [] OTHER -> TRUE
 
 ResultDiff(e, hp, g) ==
-  LET f == hp[e.src] a == e.args IN
+  LET f == hp[e.src] a == ArgsOf(e, f) IN
   CASE e.act = "copy" -> FileDiff(g, Exp_copy(f, a), "full")
     [] e.act = "slice" -> FileDiff(g, Exp_slice(f, a), "full")
     [] e.act = "apply" -> FileDiff(g, Exp_apply(f, a), "val")
